@@ -20,14 +20,13 @@ RULE = ("cases = (law, base spec): L1 from generated MultiCrossBlock specs (all 
         "distinct = (law, spec hash)")
 ASSUMPTIONS = ["pycryptosat is a correct SAT solver", "sequences are compared by level names"]
 MINIMUMS = {"quick": {"pairs_compared": 90, "pairs_compared_nonempty": 45, "L1": 25, "L2": 15, "L3": 25, "L4": 15},
-            "thorough": {"pairs_compared": 1600, "pairs_compared_nonempty": 800, "L1": 600, "L2": 350, "L3": 350,
-                         "L4": 350}}
+            "thorough": {"pairs_compared": 315, "pairs_compared_nonempty": 157, "L1": 87, "L2": 52, "L3": 87, "L4": 52}}
 CASE_TIMEOUT = 200
 CAP = 400
 
 
 def cases(tier, seed):
-    n = 3600 if tier == "thorough" else 200
+    n = 1000 if tier == "thorough" else 200
     out = []
     for i in range(n):
         rng = random.Random("c24/%s/%d" % (seed, i))
